@@ -133,11 +133,13 @@ class Bench:
         return rd
 
     def rid(self, rd):
-        r = self._rid_cache.get(rd)
-        if r is None:
-            r = (int(rd.rdtype), rd.to_digestable(self.origin))
-            self._rid_cache[rd] = r
-        return r
+        # keyed by object identity (the object is kept alive in the cache):
+        # hashing an rdata re-renders it every time
+        ent = self._rid_cache.get(id(rd))
+        if ent is None:
+            ent = (rd, (int(rd.rdtype), rd.to_digestable(self.origin)))
+            self._rid_cache[id(rd)] = ent
+        return ent[1]
 
     def rid_of(self, t, text):
         return self.rid(self.rdata(t, text))
@@ -379,13 +381,20 @@ def base_load(rng, n=8, names=None, types=None):
     return ops
 
 
-def load_bench(b, ops):
-    """Load a fresh bench and a fresh model with the base ops (must agree)."""
+def load_bench(b, ops, replacement=True):
+    """Load a fresh bench and a fresh model with the base ops (must agree).  On an
+    empty zone a replacement and an ordinary write transaction are equivalent."""
     m = RefZone(b.origin)
-    with b.zone.writer(True) as txn:
-        for op in ops:
-            apply_real(b, txn, op)
-            apply_model(b, m, op)
+    try:
+        with b.zone.writer(replacement) as txn:
+            for op in ops:
+                apply_real(b, txn, op)
+                apply_model(b, m, op)
+    except Exception as e:  # noqa: BLE001
+        raise Violation(
+            "load-failed",
+            f"[{b.kind}/{'rel' if b.relativize else 'abs'}] initial load of an empty zone through writer({replacement}) raised {type(e).__name__}: {e}",
+        )
     return m
 
 
